@@ -13,9 +13,11 @@ PROPS = {
         "kani_bounded_thorough": ["hid_send"],
         "design_ref": "DESIGN.md section 5 / C16",
         "not_covered": [
-            "sender (Message::send / to_packets are iterator chains Verus rejects): checked only by the bounded "
-            "Kani family K-HID-SEND for payload lengths {0,1,56,57,58,115,116,117,175} with symbolic contents "
-            "(thorough tier); other lengths are not covered for the sender",
+            "the sender is proved for every accepted payload: Message::send writes exactly packets_of(channel, command, payload) -- the "
+            "packet list the receiver lemma lemma_reassembly is stated over -- relative to trusted models of the iterator adapters in "
+            "to_packets (rules R23 / R24: chain / chunks().enumerate().map()), of the for loop (rule R25: Rust's own desugaring of `for` "
+            "and `enumerate`), of `iter_mut().for_each` zero-filling (R26), of vec::IntoIter (vstd) and of the byte sink (one write = one "
+            "packet). The bounded Kani family K-HID-SEND checks the same on the compiled crate for 9 payload lengths",
             "native-endian channel id encoding is an uninterpreted bijection (either endianness)",
         ],
     },
